@@ -156,9 +156,25 @@ def stubborn_child(ctx):
                 pass
 
 
+def preset_environment(ctx):
+    """the classification does not depend on what the caller's environment says about sanitizers: exit code 77 is the
+    crash code, whatever `exitcode=` an inherited ASAN_OPTIONS names"""
+    saved = os.environ.get("ASAN_OPTIONS")
+    os.environ["ASAN_OPTIONS"] = "detect_leaks=0:exitcode=42:abort_on_error=0"
+    try:
+        for n, st in ((0, "NORMAL"), (42, "ABNORMAL"), (77, "CRASH"), (1, "ABNORMAL")):
+            run_case(ctx, ["/bin/sh", "-c", f"exit {n}"], 10, st, n, b"", b"", label=f"asan-env-exit:{n}")
+    finally:
+        if saved is None:
+            os.environ.pop("ASAN_OPTIONS", None)
+        else:
+            os.environ["ASAN_OPTIONS"] = saved
+
+
 def run(ctx) -> int:
     proof = common.proof_stage(ctx.pid)
     stubborn_child(ctx)
+    preset_environment(ctx)
     sh = "/bin/sh"
     codes = range(0, 256)
     for n in codes:
